@@ -126,7 +126,7 @@ func init() {
 			"out-of-range system-common arguments only need a well-formed message (statement)",
 			"loopback is observed through drivers/testdrv + midi.ListenTo with all listen options enabled",
 		},
-		Require: []string{"ctor_points", "loopback_deliveries", "accessor_calls", "out_of_range_points", "concurrent_ctor_points"},
+		Require: []string{"ctor_points", "loopback_deliveries", "accessor_calls", "out_of_range_points", "concurrent_ctor_points", "nil_pattern_calls"},
 		Run:     runC07,
 	})
 }
@@ -210,6 +210,31 @@ func runC07(c *mon.Ctx) {
 				if !m.GetChannel(&chv) || chv != want[0]&0x0F {
 					c.Violation("getchannel:"+ct.name, fmt.Sprintf("GetChannel of % X gave %d", []byte(m), chv), []int{ch, a, b}, want[0]&0x0F, chv)
 				}
+				// documented calling mode: only the out parameters that are not nil are filled
+				if (a*131+b)%61 == 0 {
+					for mask := 0; mask < 8; mask++ {
+						var o [3]uint8
+						o[0], o[1], o[2] = 238, 238, 238
+						var ptr [3]*uint8
+						for k := 0; k < 3; k++ {
+							if mask>>k&1 == 0 {
+								ptr[k] = &o[k]
+							}
+						}
+						okp := ct.get(m, ptr[0], ptr[1], ptr[2])
+						wantv := [3]uint8{want[0] & 0x0F, want[1], want[2]}
+						bad := !okp
+						for k := 0; k < 3; k++ {
+							if ptr[k] != nil && o[k] != wantv[k] {
+								bad = true
+							}
+						}
+						c.Count("nil_pattern_calls", 1)
+						if bad {
+							c.Violation("accessor-nil-pattern:"+ct.name, fmt.Sprintf("accessor of %s(%d,%d,%d) with nil out-parameter pattern %03b: ok=%v filled (%d,%d,%d), want (%d,%d,%d) where requested", ct.name, ch, a, b, mask, okp, o[0], o[1], o[2], wantv[0], wantv[1], wantv[2]), []int{ch, a, b, mask}, wantv, o)
+						}
+					}
+				}
 				if ch <= 15 && a <= 127 && b <= 127 {
 					checkLoop(ct.name, m, []int{ch, a, b})
 				}
@@ -265,6 +290,21 @@ func runC07(c *mon.Ctx) {
 			if !m.GetChannel(&chv) || chv != want[0]&0x0F {
 				c.Violation("getchannel:"+ct.name, fmt.Sprintf("GetChannel of % X gave %d", []byte(m), chv), []int{ch, a}, want[0]&0x0F, chv)
 			}
+			for mask := 0; mask < 4 && a%16 == 0; mask++ {
+				var o0, o1 uint8 = 238, 238
+				var p0, p1 *uint8
+				if mask&1 == 0 {
+					p0 = &o0
+				}
+				if mask&2 == 0 {
+					p1 = &o1
+				}
+				okp := ct.get(m, p0, p1)
+				c.Count("nil_pattern_calls", 1)
+				if !okp || (p0 != nil && o0 != want[0]&0x0F) || (p1 != nil && o1 != want[1]) {
+					c.Violation("accessor-nil-pattern:"+ct.name, fmt.Sprintf("accessor of %s(%d,%d) with nil pattern %02b: ok=%v filled (%d,%d)", ct.name, ch, a, mask, okp, o0, o1), []int{ch, a, mask}, want, []uint8{o0, o1})
+				}
+			}
 			if ch <= 15 && a <= 127 {
 				checkLoop(ct.name, m, []int{ch, a})
 			}
@@ -304,6 +344,30 @@ func runC07(c *mon.Ctx) {
 			}
 			if !ok || gc != want[0]&0x0F || int(rel) != cl || int(abs) != cl+8192 {
 				c.Violation("accessor-inverse:Pitchbend", fmt.Sprintf("GetPitchBend(Pitchbend(%d,%d)): ok=%v ch=%d rel=%d abs=%d", ch, v, ok, gc, rel, abs), []int{ch, int(v)}, []int{int(want[0] & 0x0F), cl, cl + 8192}, []any{ok, gc, rel, abs})
+			}
+			if k%64 == 0 {
+				for mask := 0; mask < 8; mask++ {
+					var oc uint8 = 238
+					var orl int16 = -1
+					var oab uint16 = 65535
+					var pc *uint8
+					var pr *int16
+					var pa *uint16
+					if mask&1 == 0 {
+						pc = &oc
+					}
+					if mask&2 == 0 {
+						pr = &orl
+					}
+					if mask&4 == 0 {
+						pa = &oab
+					}
+					okp := m.GetPitchBend(pc, pr, pa)
+					c.Count("nil_pattern_calls", 1)
+					if !okp || (pc != nil && oc != want[0]&0x0F) || (pr != nil && int(orl) != cl) || (pa != nil && int(oab) != cl+8192) {
+						c.Violation("accessor-nil-pattern:Pitchbend", fmt.Sprintf("GetPitchBend(Pitchbend(%d,%d)) with nil pattern %03b: ok=%v filled (%d,%d,%d)", ch, v, mask, okp, oc, orl, oab), []int{ch, int(v), mask}, []int{int(want[0] & 0x0F), cl, cl + 8192}, []any{oc, orl, oab})
+					}
+				}
 			}
 			if mask := accMask(m); mask != aPB {
 				c.Violation("accessor-exclusive:Pitchbend", fmt.Sprintf("Pitchbend(%d,%d) = % X accepted by %v", ch, v, []byte(m), maskNames(mask)), []int{ch, int(v)}, maskNames(aPB), maskNames(mask))
